@@ -185,6 +185,11 @@ def checker (model : Bool) : Checker where
       -- fix badc2e4 the constructor reports an error for it
       if got.startsWith "err" then (none, none)
       else (none, some s!"constructor on a recursive struct type must return an error, got {resultTok obs}")
+    | ["new", "L", "purecyclic"] =>
+      -- a cyclic VALUE (n.Next = n) is outside the model's finite value trees; the property demands that
+      -- running a copier does not panic/crash: since the fix 9a0a893 the pure CopyTo reports an error
+      if got.startsWith "err" then (none, none)
+      else (none, some s!"pure CopyTo on a cyclic value must return an error, got {resultTok obs}")
     | "new" :: kind :: rest =>
       let optWords := if kind == "L" then rest.drop 1 else rest.drop 2
       if obs == "blackbox" then (none, if model then some "black-box run" else none) else
